@@ -8,7 +8,8 @@ Data == JsonDeserialize(IOEnv.TRACE_FILE)
 Traces == Data.traces
 
 None == 99
-Keys == Ids \X Ids
+\* the pairs a history may use: all of Ids x Ids, unless the batch names them (histories over thousands of ids use few pairs of them)
+Keys == IF "keys" \in DOMAIN Data THEN {<<Data.keys[i][1], Data.keys[i][2]>> : i \in 1..Len(Data.keys)} ELSE Ids \X Ids
 NoKey == <<>>
 
 VARIABLES tid, l, pend, verdict, done
@@ -50,6 +51,8 @@ StepO(e, obs) ==
     [] e.op = "fill" ->       \* n packets WRTE 1..n parked for one pair, nothing retrieved from it: the model state is known
          LET k == <<e.a0, e.a1>> exp == [pend EXCEPT ![k] = [i \in 1..e.n |-> [c |-> "WRTE", d |-> i]]] IN
          IF obs = exp THEN Ok(exp) ELSE Fail("C19.PutUnderOwnKeyFifo")
+    [] e.op = "putq" ->       \* a put whose resulting state was not logged in full (never a CLSE): the model state is advanced by the model
+         LET k == <<e.a0, e.a1>> IN Ok([pend EXCEPT ![k] = Append(@, [c |-> e.c, d |-> e.d])])
     [] e.op = "getq" ->       \* a get whose resulting state was not logged in full: result checked, state advanced by the model
          IF e.res = NoKey \/ Key(e.res) \notin Match(e.a0, e.a1) THEN Fail("C19.GetOwnKey")
          ELSE LET k == Key(e.res) p == Head(pend[k]) IN
@@ -64,7 +67,7 @@ StepO(e, obs) ==
 Next ==
   \/ /\ ~done /\ verdict = "ok" /\ l <= Len(Traces[tid])
      /\ LET e == Traces[tid][l] IN
-          /\ LET obs == IF e.op \in {"getq", "raised"} THEN pend ELSE Obs(e) IN StepO(e, obs)
+          /\ LET obs == IF e.op \in {"getq", "putq", "raised"} THEN pend ELSE Obs(e) IN StepO(e, obs)
      /\ l' = l + 1 /\ UNCHANGED <<tid, done>>
   \/ /\ ~done /\ (verdict # "ok" \/ l > Len(Traces[tid]))
      /\ PrintT(<<"VERDICT", tid, l, verdict>>)
